@@ -1798,6 +1798,14 @@ func (s *Service) runPipeline(rp *runnablePipeline) error {
 	// unconditionally, including on error, so the cleanup goroutine (already
 	// blocked on it) is never left hanging.
 	err := s.pipelines.UpdateStatus(ctx, rp.pipeline.ID, pipeline.StatusRunning, "")
+	if err != nil {
+		// The run could not be announced as running and the caller is about to
+		// be told that the start failed: end the run. Left alive it would keep
+		// reading, writing and acking unattended under a status that says the
+		// pipeline is not running (and, after a recovery restart, under the
+		// Degraded status the failed restart is finalized with).
+		rp.t.Kill(cerrors.FatalError(cerrors.Errorf("could not mark pipeline %s as running: %w", rp.pipeline.ID, err)))
+	}
 	close(startupDone)
 	return err
 }
